@@ -157,7 +157,16 @@ def gen_pattern(rng, o):
 
     n = int(rng.integers(2, 5))
     p = S.pick(rng, ["kron-diag", "kron-diag3", "sum-flat", "prod-flat", "scalar-merge", "identity", "kron-flat",
-                     "kronsum-flat", "scalar-of-scalar"])
+                     "kronsum-flat", "scalar-of-scalar", "blockdiag-nested"])
+    if p == "blockdiag-nested":
+        # block_diag of operands that are block-diagonal themselves, with multiplicities (a flattening rule must keep them)
+        def bd():
+            k = int(rng.integers(1, 3))
+            return {"op": "leaf", "spec": {"k": "BlockDiag", "via": "ctor", "mult": [int(x) for x in rng.integers(1, 4, size=k)],
+                                           "args": [L(int(rng.integers(1, 3)), int(rng.integers(1, 3)))["spec"] for _ in range(k)]}}
+        args = [bd() if rng.random() < 0.7 else L(int(rng.integers(1, 4)), int(rng.integers(1, 4))) for _ in range(int(rng.integers(2, 4)))]
+        args[int(rng.integers(0, len(args)))] = bd()
+        return {"op": "block_diag", "args": args}
     if p == "kron-diag":
         a, b = int(rng.integers(2, 5)), int(rng.integers(2, 5))
         return {"op": "kron", "args": [L(a, a, ["Diagonal"]), L(b, b, ["Diagonal"])]}
